@@ -513,25 +513,32 @@ Definition hex_tail (fuel : nat) (st : lex * sb) : option (lex * sb) :=
 Definition is_bin_char (c : N) : bool := (c =? 48) || (c =? 49) || (c =? 95).
 Definition is_oct_char (c : N) : bool := in_range 48 55 c || (c =? 95).
 
+Definition num_item (pos : pos) (st : lex * sb) : option (item * lex) :=
+  let '(l, b) := st in Some (mk_item T_NUMBER (sb_str b) pos false, l).
+Definition ident_item (pos : pos) (st : lex * sb) : option (item * lex) :=
+  let '(l, b) := st in Some (mk_item T_IDENT (sb_str b) pos false, l).
+
+(* integer part, fraction, exponent *)
+Definition number_general (fuel : nat) (pos : pos) (st : lex * sb) : option (item * lex) :=
+  bind (digits_us fuel st) (fun st =>
+  bind (fraction_part fuel st) (fun st =>
+  bind (exponent_part fuel st) (num_item pos))).
+
 (* func (l *Lexer) readNumber() *)
 Definition read_number (fuel : nat) (l : lex) : option (item * lex) :=
   let pos := l_pos l in
-  let num st := let '(l, b) := (st : lex * sb) in Some (mk_item T_NUMBER (sb_str b) pos false, l) in
-  let '(l, b) := if l_ch l =? 46 then (read_char l, wr (l_ch l) []) else (l, []) in
-  let general st :=
-    bind (digits_us fuel st) (fun st =>
-    bind (fraction_part fuel st) (fun st =>
-    bind (exponent_part fuel st) num)) in
+  let st0 := if l_ch l =? 46 then (read_char l, wr (l_ch l) []) else (l, []) in
+  let l := fst st0 in let b := snd st0 in
   if l_ch l =? 48 then
     let b := wr (l_ch l) b in let l := read_char l in
     if (l_ch l =? 120) || (l_ch l =? 88) then
-      bind (hex_tail fuel (read_char l, wr (l_ch l) b)) num
+      bind (hex_tail fuel (read_char l, wr (l_ch l) b)) (num_item pos)
     else if (l_ch l =? 98) || (l_ch l =? 66) then
-      bind (take_while fuel is_bin_char (read_char l, wr (l_ch l) b)) num
+      bind (take_while fuel is_bin_char (read_char l, wr (l_ch l) b)) (num_item pos)
     else if (l_ch l =? 111) || (l_ch l =? 79) then
-      bind (take_while fuel is_oct_char (read_char l, wr (l_ch l) b)) num
-    else general (l, b)
-  else general (l, b).
+      bind (take_while fuel is_oct_char (read_char l, wr (l_ch l) b)) (num_item pos)
+    else number_general fuel pos (l, b)
+  else number_general fuel pos (l, b).
 
 (* "for l.ch == '_' && IsDigit(l.peekChar()) { l.readChar(); for IsDigit(l.ch) { write; readChar } }" *)
 Definition us_digit_groups (fuel : nat) (st : lex * sb) : option (lex * sb) :=
@@ -546,57 +553,55 @@ Definition us_digit_groups (fuel : nat) (st : lex * sb) : option (lex * sb) :=
       else Some ((l1, b), false)
     else Some ((l, b), false)) st.
 
+(* the part of readNumberOrIdent after the identifier tests: underscore groups, fraction, exponent,
+   then the late 0x / 0b / 0o handling *)
+Definition number_rest (fuel : nat) (pos : pos) (start_ch : N) (st : lex * sb) : option (item * lex) :=
+  bind (us_digit_groups fuel st) (fun st =>
+  bind (fraction_part fuel st) (fun st =>
+  bind (exponent_part fuel st) (fun st =>
+  let l := fst st in let b := snd st in
+  let val0 := bytes_eqb (sb_str b) [48] in
+  let after_hex_bin :=
+    if val0 && ((l_ch l =? 120) || (l_ch l =? 88)) then
+      hex_tail fuel (read_char l, wr (l_ch l) b)
+    else if val0 && ((l_ch l =? 98) || (l_ch l =? 66)) then
+      let pk := fst (peek_char l) in let l1 := snd (peek_char l) in
+      if (pk =? 48) || (pk =? 49) then
+        take_while fuel is_bin_char (read_char l1, wr (l_ch l1) b)
+      else Some (l1, b)
+    else Some (l, b) in
+  bind after_hex_bin (fun st =>
+  let l := fst st in let b := snd st in
+  let after_oct :=
+    if (start_ch =? 48) && Nat.eqb (length b) 1 && ((l_ch l =? 111) || (l_ch l =? 79)) then
+      take_while fuel is_oct_char (read_char l, wr (l_ch l) b)
+    else Some (l, b) in
+  bind after_oct (num_item pos))))).
+
 (* func (l *Lexer) readNumberOrIdent() *)
 Definition read_number_or_ident (fuel : nat) (l : lex) : option (item * lex) :=
   let pos := l_pos l in
   let start_ch := l_ch l in
-  let ident st := let '(l, b) := (st : lex * sb) in Some (mk_item T_IDENT (sb_str b) pos false, l) in
-  bind (take_while fuel is_digit (l, [])) (fun '(l, b) =>
+  bind (take_while fuel is_digit (l, [])) (fun st =>
+  let l := fst st in let b := snd st in
   (* digits followed by '_' and a letter or '_' *)
-  let '(us_ident, l) :=
-    if l_ch l =? 95 then
-      let '(nx, l1) := peek_char l in (is_letter nx || (nx =? 95), l1)
-    else (false, l) in
+  let us_ident := (l_ch l =? 95) && (is_letter (fst (peek_char l)) || (fst (peek_char l) =? 95)) in
+  let l := if l_ch l =? 95 then snd (peek_char l) else l in
   if us_ident then
-    bind (take_while fuel is_ident_char (read_char l, wr (l_ch l) b)) ident
+    bind (take_while fuel is_ident_char (read_char l, wr (l_ch l) b)) (ident_item pos)
   else
   (* digits directly followed by a letter *)
-  let '(letter_ident, l) :=
-    if is_letter (l_ch l) then
-      let val := sb_str b in
-      let c := l_ch l in
-      let '(is_exp, l1) :=
-        if (c =? 101) || (c =? 69) then
-          let '(pk, l1) := peek_char l in (is_digit pk || (pk =? 43) || (pk =? 45), l1)
-        else (false, l) in
-      let is_base := bytes_eqb val [48] &&
+  let c := l_ch l in
+  let is_e := (c =? 101) || (c =? 69) in
+  let pk := fst (peek_char l) in
+  let is_exp := is_e && (is_digit pk || (pk =? 43) || (pk =? 45)) in
+  let is_base := bytes_eqb (sb_str b) [48] &&
         ((c =? 120) || (c =? 88) || (c =? 98) || (c =? 66) || (c =? 111) || (c =? 79)) in
-      (negb is_exp && negb is_base, l1)
-    else (false, l) in
+  let letter_ident := is_letter c && negb is_exp && negb is_base in
+  let l := if is_letter c && is_e then snd (peek_char l) else l in
   if letter_ident then
-    bind (take_while fuel is_ident_char (l, b)) ident
-  else
-    bind (us_digit_groups fuel (l, b)) (fun st =>
-    bind (fraction_part fuel st) (fun st =>
-    bind (exponent_part fuel st) (fun '(l, b) =>
-    let val0 := bytes_eqb (sb_str b) [48] in
-    (* 0x... / 0b... after the generic part *)
-    let after_hex_bin :=
-      if val0 && ((l_ch l =? 120) || (l_ch l =? 88)) then
-        hex_tail fuel (read_char l, wr (l_ch l) b)
-      else if val0 && ((l_ch l =? 98) || (l_ch l =? 66)) then
-        let '(pk, l1) := peek_char l in
-        if (pk =? 48) || (pk =? 49) then
-          take_while fuel is_bin_char (read_char l1, wr (l_ch l1) b)
-        else Some (l1, b)
-      else Some (l, b) in
-    bind after_hex_bin (fun '(l, b) =>
-    let after_oct :=
-      if (start_ch =? 48) && Nat.eqb (length b) 1 && ((l_ch l =? 111) || (l_ch l =? 79)) then
-        take_while fuel is_oct_char (read_char l, wr (l_ch l) b)
-      else Some (l, b) in
-    bind after_oct (fun '(l, b) =>
-    Some (mk_item T_NUMBER (sb_str b) pos false, l))))))).
+    bind (take_while fuel is_ident_char (l, b)) (ident_item pos)
+  else number_rest fuel pos start_ch (l, b)).
 
 (* func (l *Lexer) isIdentifierAfterDot() bool *)
 Fixpoint skip_ascii_digits (bs : list N) : nat * list N :=
@@ -763,6 +768,15 @@ Fixpoint tokenize_loop (n fuel : nat) (l : lex) : option (list item) :=
 Definition tokenize_fuel (fuel : nat) (s : S) : option (list item) :=
   tokenize_loop fuel fuel (init_lex s).
 
+(* k successive calls of NextToken (used to state that EOF is sticky) *)
+Fixpoint next_n (k fuel : nat) (l : lex) : option (list item) :=
+  match k with
+  | O => Some []
+  | Datatypes.S k' =>
+      bind (next_token fuel l) (fun '(it, l') =>
+      bind (next_n k' fuel l') (fun its => Some (it :: its)))
+  end.
+
 End Lexer.
 
 Arguments l_src {S}.
@@ -774,3 +788,7 @@ Arguments mkLex {S}.
 (* The lexer over the pure stream. *)
 Definition tokenize (bs : list N) : option (list item) :=
   tokenize_fuel pure_stream (length bs + 2)%nat bs.
+
+(* the first k results of NextToken on a fresh lexer over bs *)
+Definition next_tokens (k : nat) (bs : list N) : option (list item) :=
+  next_n pure_stream k (length bs + 2)%nat (init_lex pure_stream bs).
